@@ -39,9 +39,8 @@ func (m *Map[K, V]) Load(key K) (V, bool) {
 // LoadOrStore returns the existing value for the key if present. The loaded value is read-only and should not be modified.
 // Otherwise, it stores and returns the given value. The loaded result is true if the value was loaded, false if stored.
 func (m *Map[K, V]) LoadOrStore(key K, value V) (actual V, loaded bool) {
-	m.mutex.RLock()
-	v, ok := m.data[key]
-	m.mutex.RUnlock()
+	// (Load releases the read lock by a deferred call: a key that cannot be hashed panics in the lookup)
+	v, ok := m.Load(key)
 	if ok {
 		return v, true
 	}
